@@ -30,7 +30,7 @@ def group(name):
     raise KeyError(name)
 
 # harness binaries: group-set id -> the groups compiled into that binary
-GSETS = {1: ["SO2"], 2: ["SE2"], 3: ["R1", "R3", "R5"], 4: ["SO3"], 5: ["SE3"], 6: ["SE23"], 7: ["SGal3"]}
+GSETS = {1: ["SO2"], 2: ["SE2"], 3: ["R1", "R2", "R3", "R5", "R9"], 4: ["SO3"], 5: ["SE3"], 6: ["SE23"], 7: ["SGal3"]}
 
 def cmul(a, b): return [a[0] * b[0] - a[1] * b[1], a[0] * b[1] + a[1] * b[0]]
 def qmul(a, b):
@@ -86,7 +86,7 @@ def op_applicable(op, gn):
     if op == "AssertOk": return False      # only meaningful in the assertion-enabled build (see ASSERT_OPS)
     return True
 
-def gen_case(g, gn, op, mask=None, flt=False):
+def gen_case(g, gn, op, mask=None, flt=False, force_valid=False):
     gd = group(gn)
     sig, nm = OPSIG[op]
     thr = SQRT_EPS_D  # the double thresholds are the default; float runs use the same strata
@@ -94,11 +94,11 @@ def gen_case(g, gn, op, mask=None, flt=False):
     X = None
     for k in sig:
         if k == "G":
-            X = gen_elem(g, gd, valid=(g.r.random() < 0.85)); args.append(X)
+            X = gen_elem(g, gd, valid=(force_valid or g.r.random() < 0.85)); args.append(X)
         elif k == "N":
             args.append(gen_elem(g, gd, valid=(g.r.random() < 0.3)))
         elif k == "H":   # second element: mostly near the first (controlled relative rotation)
-            args.append(gen_near(g, gd, X) if g.r.random() < 0.7 else gen_elem(g, gd, valid=(g.r.random() < 0.85)))
+            args.append(gen_near(g, gd, X) if g.r.random() < 0.7 else gen_elem(g, gd, valid=(force_valid or g.r.random() < 0.85)))
         elif k == "T":
             args.append(gen_tan(g, gd, thr))
         elif k == "U":   # second tangent close to the first at controlled distance
@@ -123,11 +123,16 @@ def case_line(cid, c):
     return " ".join(toks)
 
 # ------------------------------------------------------------------ running
-def harness_specs(gsets, ndebug=True, flt=False):
+SCALARS = {"q": 0, "d": 1, "f": 2, "h": 3}
+def harness_name(s, ndebug, flt, scalar="q"):
+    return "h%s%s%s%s" % (scalar, s, "" if ndebug else "a", "f" if flt else "")
+def harness_specs(gsets, ndebug=True, flt=False, scalar="q"):
     specs = []
     for s in gsets:
-        defs = ["-DVQ_GROUPSET=%d" % s] + (["-DNDEBUG"] if ndebug else []) + (["-DVQ_FLOAT_THRESHOLDS"] if flt else [])
-        specs.append(dict(name="hq%d%s%s" % (s, "" if ndebug else "a", "f" if flt else ""), source="main.cpp", defines=defs))
+        defs = ["-DVQ_GROUPSET=%s" % s, "-DVQ_SCALAR=%d" % SCALARS[scalar]] + (["-DNDEBUG"] if ndebug else []) + (["-DVQ_FLOAT_THRESHOLDS"] if flt else [])
+        specs.append(dict(name=harness_name(s, ndebug, flt, scalar), source="main.cpp", defines=defs,
+                          flags=("-std=c++11", "-O1") if scalar in "qh" else ("-std=c++11", "-O2"),
+                          libs=("-lgmpxx", "-lgmp", "-lmpfr")))
     return specs
 
 def gset_of(gn):
@@ -135,41 +140,47 @@ def gset_of(gn):
     return group(gn).gset
 BUNDLE_SETS = {}
 
-def run_cases(cases, ndebug=True, timeout=1200):
+def run_cases(cases, ndebug=True, timeout=1200, scalar="q", model=True):
     """cases: list of dicts (see gen_case). Returns (results, build_errors) where results is a list of
-    dict(case, impl, model) with impl/model the result strings ('ok ...' / 'exc ...')."""
-    drv = vlib.build_driver()
+    dict(case, impl, model) with impl/model the result strings ('ok ...' / 'exc ...').
+    scalar: q = exact rationals (the only one the model is compared with), d/f/h = double/float/100-digit."""
+    drv = vlib.build_driver() if model else None
     by = {}
     for i, c in enumerate(cases):
         by.setdefault((gset_of(c["group"]), c["flt"]), []).append((i, c))
     specs = []
     for (s, flt) in by:
-        specs += harness_specs([s], ndebug, bool(flt))
+        specs += harness_specs([s], ndebug, bool(flt), scalar)
     bins = vlib.build_many(specs)
     build_errors = {n: log for n, (p, log) in bins.items() if p is None}
     results = [None] * len(cases)
-    def work(key):
+    def work(task):
+        key, chunk = task
         s, flt = key
-        name = "hq%d%s%s" % (s, "" if ndebug else "a", "f" if flt else "")
+        name = harness_name(s, ndebug, flt, scalar)
         path = bins[name][0]
         if path is None:
-            return [(i, "build_failed", "not_run") for i, _ in by[key]]
-        inp = "\n".join(case_line(i, c) for i, c in by[key]) + "\n"
+            return [(i, "build_failed", "not_run") for i, _ in chunk]
+        inp = "\n".join(case_line(i, c) for i, c in chunk) + "\n"
         p1 = subprocess.run([path], input=inp, stdout=subprocess.PIPE, stderr=subprocess.PIPE, text=True, timeout=timeout)
         hout = p1.stdout
-        p2 = subprocess.run([drv], input=hout, stdout=subprocess.PIPE, stderr=subprocess.PIPE, text=True, timeout=timeout)
         R = {}; M = {}
         for l in hout.splitlines():
             if l.startswith("R "):
                 t = l.split(" ", 2); R[int(t[1])] = t[2]
-        for l in p2.stdout.splitlines():
-            if l.startswith("M "):
-                t = l.split(" ", 2); M[int(t[1])] = t[2]
-        crash = "" if p1.returncode == 0 else " harness_rc=%d %s" % (p1.returncode, p1.stderr[-200:])
-        crash2 = "" if p2.returncode == 0 else " driver_rc=%d %s" % (p2.returncode, p2.stderr[-200:])
-        return [(i, R.get(i, "missing" + crash), M.get(i, "missing" + crash2)) for i, _ in by[key]]
+        crash = "" if p1.returncode == 0 else " harness_rc=%d %s" % (p1.returncode, p1.stderr[-200:].replace("\n", " "))
+        crash2 = ""
+        if model:
+            p2 = subprocess.run([drv], input=hout, stdout=subprocess.PIPE, stderr=subprocess.PIPE, text=True, timeout=timeout)
+            for l in p2.stdout.splitlines():
+                if l.startswith("M "):
+                    t = l.split(" ", 2); M[int(t[1])] = t[2]
+            crash2 = "" if p2.returncode == 0 else " driver_rc=%d %s" % (p2.returncode, p2.stderr[-200:].replace("\n", " "))
+        return [(i, R.get(i, "missing" + crash), M.get(i, "missing" + crash2) if model else "not_run") for i, _ in chunk]
+    CH = 250
+    tasks = [(key, items[k:k + CH]) for key, items in by.items() for k in range(0, len(items), CH)]
     with ThreadPoolExecutor(max_workers=vlib.JOBS) as ex:
-        for lst in ex.map(work, list(by.keys())):
+        for lst in ex.map(work, tasks):
             for i, r, m in lst:
                 results[i] = dict(case=cases[i], impl=r, model=m)
     return results, build_errors
@@ -180,7 +191,8 @@ def nontrivial(res):
     return any(t not in ("0", "1", "-1") and "/" in t or (t.lstrip("-").isdigit() and abs(int(t)) > 1) for t in res.split()[2:])
 
 def summarize(results):
-    dis = [r for r in results if r["impl"] != r["model"]]
+    # cases in which the oracle would have had to give two values for one argument are not comparable
+    dis = [r for r in results if r["impl"] != r["model"] and r["impl"] != "oracle_conflict"]
     seen = set(); nt = 0
     exc = {}
     for r in results:
